@@ -307,6 +307,10 @@ class Builder:
     def build_loop(self, sexpression, context, gate_context):
         count, block = sexpression.args
         built_count = self.build(count, context, gate_context)
+        if isinstance(built_count, float) or (
+            isinstance(built_count, Constant) and isinstance(built_count.value, float)
+        ):
+            raise JaqalError(f"Loop count must be an integer, found {count}")
         built_block = self.build(block, context, gate_context)
         return LoopStatement(built_count, built_block)
 
